@@ -117,20 +117,20 @@ type vfpgCfg struct {
 }
 
 type vfpgClient struct {
-	t       testing.TB
-	env     *vfEnv
-	fs      *vfsFS
-	tr      *vfTrace
-	tb      *vfpgTable
-	hp      map[uint64][]string // handle value -> path components it was issued for (raw strings)
-	base    []vfNode
-	baseKey string
-	n       int
-	last    *vfNFSReply
-	lastFH  uint64
-	lastHas bool
-	seen    map[string]bool // distinct (slot, vector) pairs that are not plain letters
-	reqs    int
+	t        testing.TB
+	env      *vfEnv
+	fs       *vfsFS
+	tr       *vfTrace
+	tb       *vfpgTable
+	hp       map[uint64][]string // handle value -> path components it was issued for (raw strings)
+	base     []vfNode
+	baseKey  string
+	n        int
+	last     *vfNFSReply
+	lastFH   uint64
+	lastHas  bool
+	seen     map[string]bool // distinct (slot, vector) pairs that are not plain letters
+	reqs     int
 	restores int
 }
 
@@ -171,10 +171,10 @@ func vfpgNewClient(t testing.TB, tr *vfTrace, tb *vfpgTable, cfg vfpgCfg, hist i
 
 // vfpgReq describes one request for the log.
 type vfpgReq struct {
-	proc, slot string
-	h, h2      uint64
-	hasH, hasH2 bool
-	nm, nm2, tgt, mp []string
+	proc, slot                   string
+	h, h2                        uint64
+	hasH, hasH2                  bool
+	nm, nm2, tgt, mp             []string
 	hasNm, hasNm2, hasTgt, hasMp bool
 }
 
@@ -499,10 +499,11 @@ func vfpgConfigs() []vfpgCfg {
 }
 
 // TestVF_PathGuard writes pathguard.ndjson and pathguard.summary.json.
-//   VF_PG_LEN      longest exhaustively enumerated token string (3 quick, 4 thorough)
-//   VF_PG_RANDOM   number of seeded random token strings (core + extra alphabet, 1..7 tokens)
-//   VF_PG_CHUNK    vectors per history
-//   VF_PG_TLEN     longest planted READLINK target over {a, dot, sl} (4 quick, 5 thorough)
+//
+//	VF_PG_LEN      longest exhaustively enumerated token string (3 quick, 4 thorough)
+//	VF_PG_RANDOM   number of seeded random token strings (core + extra alphabet, 1..7 tokens)
+//	VF_PG_CHUNK    vectors per history
+//	VF_PG_TLEN     longest planted READLINK target over {a, dot, sl} (4 quick, 5 thorough)
 func TestVF_PathGuard(t *testing.T) {
 	seed := vfSeed()
 	tb := vfpgLoadTable(t)
